@@ -48,12 +48,53 @@ class Finder(importlib.abc.MetaPathFinder, importlib.abc.Loader):
     def exec_module(self, m): pass
 
 
+class Params:
+    """allennlp.common.params.Params, as far as depccg/allennlp/utils.py read_params uses it: from_file(<config>.jsonnet) and pop(key).
+    The configuration files are `local NAME = (import 'FILE').KEY;` lines followed by one object whose values are literals or those
+    locals; a value is read from its file (harness/jsonnet.py) when it is popped."""
+
+    def __init__(self, lazy):
+        self._lazy = lazy
+
+    @classmethod
+    def from_file(cls, path, *a, **k):
+        import os, re
+        text = open(path, encoding='utf-8').read()
+        here = os.path.dirname(os.path.abspath(path))
+        local = {m.group(1): (os.path.join(here, m.group(2)), m.group(3))
+                 for m in re.finditer(r"local\s+(\w+)\s*=\s*\(import\s+'([^']+)'\)\.(\w+)\s*;", text)}
+        body = text[text.index('{', max([m.end() for m in re.finditer(r';', text)] + [0])):]
+        lazy = {}
+        for m in re.finditer(r'^\s*(\w+)\s*:\s*([^,\n]+?)\s*,?\s*$', body, flags=re.M):
+            key, val = m.group(1), m.group(2)
+            lazy[key] = ('import',) + local[val] if val in local else ('literal', val)
+        return cls(lazy)
+
+    def pop(self, key, *default):
+        if key not in self._lazy:
+            if default:
+                return default[0]
+            raise KeyError(key)
+        kind, *rest = self._lazy.pop(key)
+        if kind == 'import':
+            import jsonnet
+            return jsonnet.load(rest[0])[rest[1]]
+        v = rest[0].strip()
+        try:
+            import ast
+            return ast.literal_eval(v)
+        except Exception:      # noqa
+            return v
+
+
 def install():
     if any(isinstance(f, Finder) for f in sys.meta_path):
         return
     sys.meta_path.insert(0, Finder())
     import tqdm
     tqdm.tqdm = lambda x, **k: x
+    import allennlp.common.params
+    allennlp.common.params.Params = Params
     if 'depccg._parsing' not in sys.modules:
         sys.modules['depccg._parsing'] = types.ModuleType('depccg._parsing')
 
